@@ -44,14 +44,15 @@ def dropKth (t : Nat) : List (Nat × Event) → Nat → List (Nat × Event)
 def applyOp (w : World) : BOp → World
   | .connect c node client mount authOk ka will =>
     let w := if w.conns.any (fun e => e.1 == c) then w.drop c else w
-    let w := { w with out := w.out.filter (fun e => e.1 != c) }
+    -- a fresh connection under this name: whatever was written to, or refused on, the old one is history
+    let w := { w with out := w.out.filter (fun e => e.1 != c), deaf := w.deaf.filter (· != c) }
     w.connect c node client mount authOk ka will
   | .packet c pkt => if writable w c then w.clientPacket c pkt else w
   | .drop c => closeFromClient w c
   | .openConn c node =>
     -- re-using a connection name: the harness closes the old connection first
     let w := if w.conns.any (fun e => e.1 == c) then closeFromClient w c else w
-    openConn w c node
+    openConn { w with deaf := w.deaf.filter (· != c) } c node
   | .raw c bytes => (rawBytes w c bytes).1
   | .gossipAll => w.gossipAll
   | .gossip f t => w.deliverGossip f t
